@@ -234,6 +234,18 @@ def second_pass(ctx, pairs, first):
             e = "[`%s`==[0],`%s`!=[0],`%s`<[0],`%s`<=[0],`%s`>[0],`%s`>=[0],[0]==`%s`,[0]<=`%s`,[0]>=`%s`,[0]<`%s`,[0]>`%s`]" % ((la,) * 11)
             lines.append(C.hexs(e) + "\t[ " + b + " ]")
             meta.append(("lit", k, e))
+            lb = lit_text(b)
+            if lb is not None and len(lb) < 400:
+                # BOTH operands written as literals (a parser that folds constant comparisons must fold them to the same answers)
+                sa, sb = "`%s`" % la, "`%s`" % lb
+                if a[0] == "s" and b[0] == "s" and rng.random() < 0.5:
+                    import enc as E
+                    ra, rb = E.parse(a)[1], E.parse(b)[1]
+                    if "'" not in ra + rb and "\\" not in ra + rb:
+                        sa, sb = "'%s'" % ra, "'%s'" % rb
+                e2 = "[%s==%s,%s!=%s,%s<%s,%s<=%s,%s>%s,%s>=%s]" % ((sa, sb) * 6)
+                lines.append(C.hexs(e2) + "\tu0")
+                meta.append(("lit2", k, e2))
     impl, model = S.run_both(ctx, "eval", lines)
     for (kind, k, e), i, m in zip(meta, impl, model):
         ctx.evaluations += 1
@@ -252,6 +264,11 @@ def second_pass(ctx, pairs, first):
             if r != want:
                 ctx.violation("eval", [a, b], i[:200], "ok [ " + " ".join(want) + " ]",
                               "an operand compared with itself: ordering operators are defined on numbers only, == is reflexive (expression %s)" % EXPR_SAME)
+        elif kind == "lit2":
+            want = [eq, ne, lt, le, gt, ge]
+            if r != want:
+                ctx.violation("eval", [a, b], i[:200], "ok [ " + " ".join(want) + " ]",
+                              "both operands written as literals give a different answer than the same values read from the document (expression %s)" % e[:200])
         else:
             want = [eq, ne, lt, le, gt, ge, eq, ge, le, gt, lt]
             if r != want:
